@@ -187,3 +187,26 @@ Proof.
   - rewrite P5. split; [intros []|]. intros p [].
   - rewrite P6. split; [simpl; intuition discriminate|]. intros p [<-|[]] _. rewrite C16. intros [].
 Qed.
+
+(* G8: "peered AND connected": node-level service 1 has port 2, connected over link 3 to service port 4 of service 5;
+   the two services also peer: service port 6 of 1 - link 7 - service port 8 of 5.  Two 5-node connects paths. *)
+Definition G8 : graph := mkGraph
+  [ mkNode 1 CNS 12 1 false 1; mkNode 2 CCP 19 2 false 1; mkNode 3 CLink 14 3 false 1; mkNode 4 CCP 1 4 false 1;
+    mkNode 5 CNS 13 5 false 1; mkNode 6 CCP 1 6 false 1; mkNode 7 CLink 14 7 false 1; mkNode 8 CCP 1 8 false 1 ]
+  [ mkEdge 1 2 RConnects; mkEdge 2 3 RConnects; mkEdge 3 4 RConnects; mkEdge 4 5 RConnects;
+    mkEdge 1 6 RConnects; mkEdge 6 7 RConnects; mkEdge 7 8 RConnects; mkEdge 5 8 RConnects ].
+
+(* the shortest-path unpeer has two candidate paths (which one networkx takes decides between success and
+   "do not peer"); the rewrite of C08-6 finds the one peering pair and removes exactly it *)
+Example ex_unpeer6_peered_and_connected :
+  (exists l, unpeer_ends G8 1 5 = Some l /\ length l = 2%nat) /\
+  fst (run (exec true (OUnpeer 1 5) [[2; 6]; [4; 8]]) G8) = inr EAmbig /\
+  unpeer_pairs G8 1 5 = [(6, 8)] /\ cpn G8 6 = [] /\ cpn G8 8 = [] /\ class_of G8 1 = CNS /\
+  fst (run (exec true (OUnpeer6 1 5) [[2; 6]; [4; 8]]) G8) = inl [[2]; [4]] /\
+  trace_of (run (exec true (OUnpeer6 1 5) [[2; 6]; [4; 8]]) G8) = [6; 7; 8].
+Proof. split; [eexists; split; vm_compute; reflexivity|]. vm_compute. repeat split; reflexivity. Qed.
+
+(* G7 (a NIC's own service vs the service its port is connected to): no pair, C08-6 raises as well *)
+Example ex_unpeer6_node_port :
+  unpeer_pairs G7 1 5 = [] /\ fst (run (exec true (OUnpeer6 1 5) [[2]; [4]]) G7) = inr ETopology.
+Proof. vm_compute. split; reflexivity. Qed.
